@@ -722,6 +722,20 @@ def _install(M):
     def _id(ex, a, k, l):
         return id(a[0])
 
+    @reg("copy.copy")
+    def _copy(ex, a, k, l):
+        """shallow copy: a new object sharing the field values"""
+        x = a[0]
+        if isinstance(x, Obj):
+            o = Obj(x.cls, dict(x.fields), label=(x.label or "") + "(copy)")
+            ex.last_copy = (x, o)
+            return o
+        if isinstance(x, SymArr):
+            return x.snapshot()
+        if isinstance(x, (list, dict)):
+            return type(x)(x)
+        return x
+
     for nm in ("Exception", "ValueError", "TypeError", "KeyError", "IndexError", "NotImplementedError",
                "AttributeError", "RuntimeError"):
         M.table[nm] = Builtin(nm, lambda ex, a, k, l, nm=nm: Opaque("exception " + nm))
